@@ -122,7 +122,8 @@ def check_proofs(prop):
     text = open(src).read()
     thms = re.findall(r"^\s*(?:Theorem|Corollary)\s+([A-Za-z0-9_']+)", text, re.M)
     printed = re.findall(r"^\s*Print Assumptions\s+([A-Za-z0-9_']+)\s*\.", text, re.M)
-    rc, out = build.run(["timeout", "900", "coqc", "-Q", ".", "SV", "Props/%s.v" % prop], cwd=COQ, timeout=960)
+    with build.Lock():
+        rc, out = build.run(["timeout", "900", "coqc", "-Q", ".", "SV", "Props/%s.v" % prop], cwd=COQ, timeout=960)
     res = {"obligations": len(thms), "theorems": thms, "log": out[-3000:], "ok": rc == 0,
            "axioms": {}, "discharged": 0, "missing_print": [t for t in thms if t not in printed]}
     if rc != 0:
